@@ -9,6 +9,8 @@ import RubyTi.Model.C2json
 import RubyTi.Model.Suggest
 import RubyTi.Model.Namespace
 import RubyTi.Model.Match
+import RubyTi.Model.Unify
+import RubyTi.Model.Ret
 
 /-! Line-protocol driver over the executable model definitions (core-only, built as `lean_exe`).
 One op per input line, one answer line per op; the answer format is the one
@@ -222,6 +224,9 @@ def atomT (s : String) : T :=
   else if s == "Y" then T.makeAnySymbol else if s == "B" then T.makeBool else if s == "N" then T.makeNil
   else if s == "A" then T.makeAnyArray else if s == "H" then T.makeAnyHash else if s == "U" then T.makeUntyped
   else if s == "K" then T.makeUnknown else if s == "L" then T.makeBlock else if s == "R" then T.makeRange
+  else if s == "SELF" then T.makeSelf else if s == "UNIFY" then T.makeUnify else if s == "OPTU" then T.makeOptionalUnify
+  else if s == "SELFARR" then T.makeSelfArray else if s == "ARG" then T.makeArgument else if s == "KVARR" then T.makeKeyValueArray
+  else if s.startsWith "NS:" then T.makeIdentifier (s.drop 3).toString.toList
   else if s.startsWith "O:" then T.makeObject (s.drop 2).toString.toList
   else if s.startsWith "C:" then T.makeClass (s.drop 2).toString.toList
   else if s.startsWith "v<" then
@@ -245,6 +250,62 @@ def opMatch (args : String) : String :=
     let a := recipeT as.trimAscii.toString
     let b (x : Bool) := if x then "1" else "0"
     b (Match.isMatchType d a) ++ b (Match.isMatchUnionType d a) ++ b (Match.checkArg d a)
+  | _ => "BAD-ARGS"
+
+partial def parseNested (toks : List String) : Option (T × List String) :=
+  match toks with
+  | [] => none
+  | tok :: rest =>
+    if tok == "A(" || tok == "U(" then
+      let rec items (ts : List String) (acc : List T) : Option (List T × List String) :=
+        match ts with
+        | [] => none
+        | ")" :: r => some (acc.reverse, r)
+        | _ => match parseNested ts with
+          | some (t, r) => items r (t :: acc)
+          | none => none
+      match items rest [] with
+      | some (vs, r) => some (if tok == "A(" then T.makeArray vs else T.makeUnion vs, r)
+      | none => none
+    else if tok == "H(" then
+      let rec kvs (ts : List String) (h : T) : Option (T × List String) :=
+        match ts with
+        | [] => none
+        | ")" :: r => some (h, r)
+        | k :: r => match parseNested r with
+          | some (t, r2) => kvs r2 (Unify.appendHashVariant h (T.makeKeyValue ((k.dropEnd 1).toString.toList) t))
+          | none => none
+      kvs rest T.makeAnyHash
+    else some (atomT tok, rest)
+
+def nestedT (s : String) : T :=
+  match parseNested ((s.splitOn " ").filter (· != "")) with
+  | some (t, _) => t
+  | none => T.makeNil
+
+def FUEL : Nat := 40
+
+def opAppendV (args : String) : String :=
+  match args.splitOn " | " with
+  | [ts, vs] =>
+    let t := Unify.appendVariant FUEL (nestedT ts) (nestedT vs)
+    T.enc t ++ " " ++ Unify.typeToString FUEL t
+  | _ => "BAD-ARGS"
+
+def opUnify (args : String) : String :=
+  let u := Unify.unifyVariants FUEL (nestedT args)
+  T.enc u ++ " " ++ Unify.typeToString FUEL u
+
+def opRender (args : String) : String := Unify.typeToString FUEL (nestedT args)
+
+def opRet (args : String) : String :=
+  match args.splitOn " | " with
+  | [ms, rs, as] =>
+    let m := (nestedT ms).setMethod "Builtin".toList "m".toList []
+    let recv := nestedT rs
+    let argTs := ((as.splitOn ";").filter (fun a => a.trimAscii.toString != "")).map nestedT
+    let r := Ret.calcExec FUEL m recv argTs
+    T.enc r.1 ++ " " ++ Unify.typeToString FUEL r.1 ++ " | " ++ T.enc r.2
   | _ => "BAD-ARGS"
 
 def rbsParam (s : String) : Rbs.Param :=
@@ -304,6 +365,10 @@ def dispatch (line : String) : String :=
   else if name == "sortsig" then opSortSig args
   else if name == "suggest" then opSuggest args
   else if name == "match" then opMatch args
+  else if name == "ret" then opRet args
+  else if name == "appendv" then opAppendV args
+  else if name == "unify" then opUnify args
+  else if name == "render" then opRender args
   else if name == "namepred" then opNamePred args
   else if name == "findns" then opFindNS args
   else if name == "rbsargs" then opRbsArgs args
